@@ -792,3 +792,6 @@ def replay(ctx, data):
         except Exception as e:
             print("  model not available:", e)
     return ok
+
+
+DRIVER_OPS = ["lookup"]   # per-area driver executable(s) this check talks to (built before any worker is forked)
